@@ -76,49 +76,37 @@ B0 == <<6, 1000, 0>>
 Censuses == {B0, <<7, 1000, 0>>, <<6, 1040, 0>>, <<6, 1000, 1>>}
 Raw == 1
 Good == 2
-EUp == \E t \in {SOCK, SHM} : Up(t, 0, B0)
-EConnect == \/ \E id \in {AUTH, 0}, total \in {0, 10, RS, RS + 16} : Connect(Raw, 0, id, RS, 100, total, 0)
+AUp == judged = <<>> /\ UNCHANGED judged /\ \E t \in {SOCK, SHM} : Up(t, 0, B0)
+AConnect == judged = <<>> /\ UNCHANGED judged /\
+            \/ \E id \in {AUTH, 0}, total \in {10, RS} : Connect(Raw, 0, id, RS, 100, total, 0)
             \/ Connect(Good, 1, AUTH, RS, 12328, RS, 0)
-EWrite == \E p \in DOMAIN peers : \E n \in {1, 10, peers[p].total - peers[p].sent} :
+AWrite == judged = <<>> /\ UNCHANGED judged /\
+          \E p \in DOMAIN peers : \E n \in {10, peers[p].total - peers[p].sent} :
              n > 0 /\ n <= peers[p].total - peers[p].sent /\ \E w \in {n, -32} : Write(p, n, w)
-EClose == \E p \in DOMAIN peers : Close(p)
-EResp == \E kind \in 0..3, err \in {0, -13}, mx \in {100} : Resp(Raw, kind, err, mx, tr)
-EAttach == \E rc \in {0, -22} : Attach(Raw, rc)
-ESend == \/ \E a \in {0, 16, 100, 101}, h \in {-1, 0, 16, 100, 101}, note \in {0, 1} : \E rc \in {a, -11} : Send(Raw, a, 5, h, note, rc)
+AClose == judged = <<>> /\ UNCHANGED judged /\ \E p \in DOMAIN peers : Close(p)
+AResp == judged = <<>> /\ UNCHANGED judged /\ \E kind \in 0..2, err \in {0, -13} : Resp(Raw, kind, err, 100, tr)
+AAttach == judged = <<>> /\ UNCHANGED judged /\ \E rc \in {0, -22} : Attach(Raw, rc)
+RawSends == {<<16, 16>>, <<16, 100>>, <<100, -1>>, <<101, 101>>}
+ASend == judged = <<>> /\ UNCHANGED judged /\
+         \/ \E m \in RawSends, note \in {0, 1} : \E rc \in {m[1], -11} : Send(Raw, m[1], 5, m[2], note, rc)
          \/ Send(Good, 64, 5, 64, 1, 64)
-EKick == Kick(Raw, 1)
-EGCont == GCont(Good, 0, 12328)
-EGRecv == GRecv(Good, RespLen)
-EAccept == \E p \in DOMAIN peers : Accept(p)
-ECreated == \E p \in DOMAIN peers : Created(p)
-EMsg == \E p \in DOMAIN peers : peers[p].infl # <<>> /\
-           \E size \in {0, 16, peers[p].infl[1], peers[p].infl[1] + 1}, off \in {0, 8} : Msg(p, size, off, 24576)
-EMsgRead == reading # <<>> /\ \E nv \in {reading[2], reading[2] + 4} : MsgRead(reading[1], nv)
-EClosed == \E p \in DOMAIN peers : Closed(p)
-EDestroyed == \E p \in DOMAIN peers : Destroyed(p)
-ECensus == \E c \in Censuses : Census(c)
-EExit == Exit(0, 0)
+AKick == judged = <<>> /\ UNCHANGED judged /\ Kick(Raw, 1)
+AGCont == judged = <<>> /\ UNCHANGED judged /\ GCont(Good, 0, 12328)
+AGRecv == judged = <<>> /\ UNCHANGED judged /\ GRecv(Good, RespLen)
+AAccept == judged = <<>> /\ UNCHANGED judged /\ \E p \in DOMAIN peers : Accept(p)
+ACreated == judged = <<>> /\ UNCHANGED judged /\ \E p \in DOMAIN peers : Created(p)
+AMsg == judged = <<>> /\ UNCHANGED judged /\ \E p \in DOMAIN peers : peers[p].infl # <<>> /\
+           \E size \in {16, peers[p].infl[1], peers[p].infl[1] + 1}, off \in {8} : Msg(p, size, off, 24576)
+AMsgRead == judged = <<>> /\ UNCHANGED judged /\ reading # <<>> /\ \E nv \in {reading[2], reading[2] + 4} : MsgRead(reading[1], nv)
+AClosed == judged = <<>> /\ UNCHANGED judged /\ \E p \in DOMAIN peers : Closed(p)
+ADestroyed == judged = <<>> /\ UNCHANGED judged /\ \E p \in DOMAIN peers : Destroyed(p)
+ACensus == judged = <<>> /\ UNCHANGED judged /\ \E c \in Censuses : Census(c)
+AExit == judged = <<>> /\ UNCHANGED judged /\ Exit(0, 0)
 
-P(A) == judged = <<>> /\ A /\ UNCHANGED judged
-AUp == P(EUp)
-AConnect == P(EConnect)
-AWrite == P(EWrite)
-AClose == P(EClose)
-AResp == P(EResp)
-AAttach == P(EAttach)
-ASend == P(ESend)
-AKick == P(EKick)
-AGCont == P(EGCont)
-AGRecv == P(EGRecv)
-AAccept == P(EAccept)
-ACreated == P(ECreated)
-AMsg == P(EMsg)
-AMsgRead == P(EMsgRead)
-AClosed == P(EClosed)
-ADestroyed == P(EDestroyed)
-ACensus == P(ECensus)
-AExit == P(EExit)
-Next == AUp \/ AConnect \/ AWrite \/ AClose \/ AResp \/ AAttach \/ ASend \/ AKick \/ AGCont \/ AGRecv \/ AAccept \/ ACreated \/ AMsg \/ AMsgRead \/ AClosed \/ ADestroyed \/ ACensus \/ AExit \/ AJudge
+Next == AUp \/ AConnect \/ AWrite \/ AClose \/ AResp \/ AAttach \/ ASend \/ AKick \/ AGCont \/ AGRecv
+        \/ AAccept \/ ACreated \/ AMsg \/ AMsgRead \/ AClosed \/ ADestroyed \/ ACensus \/ AExit \/ AJudge
+(* the request-class configurations explore the judgements only *)
+JudgeOnly == ~up
 MCInit == Init /\ judged = <<>>
 Spec == MCInit /\ [][Next]_mvars
 
